@@ -45,7 +45,7 @@ def keep(e):
     return replay.proj(e) is not None
 
 
-def validate(scs, log_path, wd, name="trace", prop=None):
+def validate(scs, log_path, wd, name="trace", prop=None, max_runs=None):
     """Returns dict(validated, skipped{reason:count}, rejected[list], drift[list], stats)."""
     by_id = {s["id"]: s for s in scs}
     skipped, runs = {}, []
@@ -60,6 +60,9 @@ def validate(scs, log_path, wd, name="trace", prop=None):
                 why = "panic / hang recorded"
             if why:
                 skipped[why] = skipped.get(why, 0) + 1
+                continue
+            if max_runs is not None and len(runs) >= max_runs:
+                skipped["beyond the quick tier's budget"] = skipped.get("beyond the quick tier's budget", 0) + 1
                 continue
             kept = [e for e in recs if keep(e)]
             start = n + 1
